@@ -214,6 +214,8 @@ def op_strategy(draw):
         op["extra"] = draw(st.sampled_from([None, None, "fresh", "shared"]))
     elif name == "save_load":
         op["to"] = draw(st.sampled_from(["own", "folder"]))
+        # the target folder already holds the stored iterations of an earlier run (another history, same file names)
+        op["leftovers"] = draw(st.sampled_from([False, False, True]))
     elif name == "folder":
         op["to"] = draw(st.sampled_from(["", "A", "B"]))
     elif name in ("set_iter", "get_results", "result_iter", "continue"):
@@ -254,7 +256,7 @@ def histories(draw, kinds=KINDS):
         # simulation saved again into that folder; every iteration must be restorable from the second copy
         rec2 = draw(gm.recipes2d(types=SMALL, affine_ok=False, perm_ok=False, hmin=7, hmax=9, nmax=4))
         ops = [dict(op="solve", lam=0.5), dict(op="save"), dict(op="replace_mesh", recipe=rec2), dict(op="solve", lam=0.75), dict(op="save"),
-               dict(op="save_load", to="own"), dict(op="folder", to="B"), dict(op="save_load", to="folder")]
+               dict(op="save_load", to="own", leftovers=draw(st.booleans())), dict(op="folder", to="B"), dict(op="save_load", to="folder")]
     elif kind in ("thermal", "elastic_dyn") and draw(st.integers(0, 3)) == 0:
         # scenario: a steady (elliptic) first iteration, then transient steps; the steady iteration is restored under the
         # transient algorithm and the first transient step is computed again from it
@@ -462,6 +464,17 @@ def run_history(case, rec):
                 # target: a folder of its own, or the folder the iterations are currently written to (changed by hand before)
                 folder = simu.folder if (op.get("to") == "folder" and simu.folder) else os.path.join(root, "S")
                 rec.label("save_to:" + ("iterations_folder" if folder == simu.folder else "own_folder"))
+                if op.get("leftovers") and folder != simu.folder and not os.path.exists(folder):
+                    # an earlier run of the same script, with other loads, wrote its iterations into that folder
+                    try:
+                        old_run = ad.make(case["recipe"])
+                        old_run.folder = folder
+                        for lam_ in (-1.0, 1.75, 0.375, 1.25):
+                            ad.step(old_run, lam_)
+                            old_run.Save_Iter()
+                        rec.label("save_to:folder_with_leftovers")
+                    except Inconclusive:
+                        pass
                 cur_fields = ad.fields(simu)
                 try:
                     simu.Save(folder)
